@@ -286,6 +286,38 @@ def post_candidates(C):
     return out
 
 
+def pre_node_voxel(C):
+    o = C.old
+    g = grid(o, C.this)
+    lst = o.sub(g, 'uspg_4d<face *>.voxel_lst_')
+    nb = [o.f(g, G + 'nb_voxels_%s_' % a) for a in AX]
+    s = o.f(g, G + 'voxel_size_')
+    n1 = lv(C, 'n')
+    p = o.v3(n1, 'node.pos_').comps()
+    out = [('grid-invariant', z3.And(s > 0, *[z3.And(n_ >= 1, n_ < C20.MAXV) for n_ in nb])), ('one-slot-per-voxel', o.len(lst) == nb[0] * nb[1] * nb[2]),
+           ('c1-non-null', val(C, 'c1').ref > 0)]
+    for a, ax in enumerate(AX):
+        gmin = o.f(g, G + 'min_%s_' % ax)
+        # a live node is a vertex of a live face (C01); its position lies strictly inside that face's padded box, hence inside the grid (D1, D3)
+        out.append(('node-%s-inside-the-grid' % ax, z3.And(p[a] >= gmin, z3.ToInt((p[a] - gmin) / s) < nb[a])))
+    return out
+
+
+def post_node_voxel(C):
+    o = C.old
+    if C.outcome != 'loop-entry': return []
+    g = grid(o, C.this)
+    lst = o.sub(g, 'uspg_4d<face *>.voxel_lst_')
+    nb = [o.f(g, G + 'nb_voxels_%s_' % a) for a in AX]
+    s = o.f(g, G + 'voxel_size_')
+    n1 = lv(C, 'n')
+    p = o.v3(n1, 'node.pos_').comps()
+    idx = [z3.ToInt((p[a] - o.f(g, G + 'min_%s_' % ax)) / s) for a, ax in enumerate(AX)]
+    cont = C.post_state.ghost.get('stopped_container')
+    if cont is None: return [('candidate-list-known', z3.BoolVal(False))]
+    return [('candidates-are-the-faces-stored-in-the-voxel-of-the-node', cont.ref == o.elem(lst, idx[2] * nb[0] * nb[1] + idx[1] * nb[0] + idx[0]))]
+
+
 def setup_maxdot(eng, st, args, this):
     pass
 
@@ -307,4 +339,28 @@ def build(reg, cfg):
     if cfg['SIMUCELL3D_VERIF_CONTACT_MODEL_INDEX'] == 1:
         reg.add(Contract('contact_node_node_via_coupling::resolve_all_contacts', PROP, pre=pre_candidates, post=post_candidates, slice_loop=2,
                          use=[resolve_contract(), aabb_contract()], name='contact_node_node_via_coupling::resolve_all_contacts::<candidate loop body> (D4)'))
+        reg.add(Contract('contact_node_node_via_coupling::resolve_all_contacts', PROP, pre=pre_node_voxel, post=post_node_voxel, slice_loop=1, prefix_loop=2,
+                         safety={'bounds', 'wrap', 'narrowing'}, use=[flat_contract()],
+                         name='contact_node_node_via_coupling::resolve_all_contacts::<voxel of the node> (D4)'))
     lemmas(reg)
+
+
+EXPLANATION = ("Chain of contracts for the shipped contact model (node-node coupling); each link is an obligation set on the real code, the composition "
+               "is written here. D0 constructor: padding = max(cut-offs), voxel size = 3*l_min + 2*padding. D1 update_face_aabbs: box list starts "
+               "empty; an arbitrary iteration appends exactly the padded extent [min - pad, max + pad] of the face's three nodes at position 6*i, "
+               "keeps earlier boxes, and the global box contains the face box and only grows. D2 aabb_intersection_check is true iff the point "
+               "is inside the stored box; lemma: a point within the padding of any point of the triangle is inside the padded box. "
+               "D3 store_face_in_uspg: the grid is rebuilt on the global box; for an arbitrary face the voxel range starts at the voxel of the "
+               "box minimum, reaches the voxel of the box maximum and stays inside the grid; an arbitrary iteration of the innermost loop places "
+               "the face in the visited voxel (grid contracts of C20); lemma: the voxel index is monotone, so the voxel of any point of the box "
+               "lies in the range. D4 resolve_all_contacts: the candidates of a node are the faces stored in the voxel of the node; every "
+               "candidate face of another cell whose box contains the node and which passes the model's normal rule reaches resolve_contact, "
+               "faces of the same cell never do. Composition: node within the cut-off of a triangle => (D2 lemma, pad >= cut-off by D0) inside "
+               "the face box => (monotonicity) its voxel is in the face's range => (D3) the face is in that voxel's list => (D4) presented to "
+               "the contact rule, whose own distance test (C05/C07) does the rest.")
+ASSUMPTIONS = ["exact reals", "grid contracts (update_dimensions, get_voxel_index, place_object) are used as proved in C20",
+               "live nodes lie inside the grid box: every live node is a vertex of a live face (C01) whose padded box is inside the global box (D1)",
+               "for-loop semantics compose the per-iteration contracts (boxes stored at 6*i for every i; every voxel of the range visited)",
+               "contact models 0 and 2 share D0-D3 (same base class); their candidate loops are not under contract here"]
+UNVERIFIED = ["contact_node_face_via_spring::resolve_contacts and contact_face_face_via_coupling::resolve_all_contacts (candidate loops of the other two compile-time models)",
+              "construction of face_lst_ / global_face_id_ in run() (face i of face_lst_ has global id i)"]
